@@ -18,7 +18,6 @@ import (
 	"fmt"
 	"math/rand"
 	"os"
-	"sort"
 	"strconv"
 	"strings"
 	"time"
@@ -93,7 +92,7 @@ func (e ev) String() string {
 	}
 	loc := ""
 	if e.loc != nil && e.loc != time.UTC {
-		loc = "[" + trigh.Tick(e.r.tick).In(e.loc).Format("-07:00") + fmt.Sprintf("/%p", e.loc) + "]"
+		loc = "[" + trigh.LocName(e.loc) + "]"
 	}
 	return fmt.Sprintf("%s(%d%s,%s,%s)", sign, e.r.tick, loc, e.r.k, v)
 }
@@ -773,5 +772,3 @@ func Run(c *core.Ctx) core.FinishOpts {
 		Exhaustive:  false,
 	}
 }
-
-var _ = sort.Strings
